@@ -7,13 +7,17 @@
 (*                                                                         *)
 (* Invariants:                                                             *)
 (*  PropertyHolds   no clause of the statement is violated in any          *)
-(*                  reachable state, unless the portal has crashed         *)
-(*                  (crashed states are reachable only with FutRace and    *)
-(*                  are terminal)                                          *)
+(*                  reachable state, except the clauses of the two known   *)
+(*                  model-level findings in exactly the states where the   *)
+(*                  model has taken the racy path (ghost flags inert /     *)
+(*                  hung); crashed states (FutRace only) are terminal      *)
+(*  PropertyHoldsStrict  pbad = {}: holds when the environment acts only   *)
+(*                  at quiescent points (QStep), the replay binding        *)
 (*  NoCrash         InvalidStateError never escapes _call_func.  FAILS     *)
-(*                  with FutRace = TRUE: that is finding C15-A; the check  *)
-(*                  runs it as a witness and expects the violation.        *)
-(*  TypeOK, FutureSingleAssignment, GroupJoined, NoHungThread              *)
+(*                  with FutRace = TRUE: finding C15-A; the check runs it  *)
+(*                  as a witness and expects the violation.                *)
+(*  CancelAlwaysLands  FAILS without QStep: finding C15-B (witness).       *)
+(*  TypeOK, GroupJoined, NoOrphanFuture, NoHungThread                      *)
 (*                  implementation-level sanity                            *)
 (* EmitAC prints the history of environment choices at every quiescent     *)
 (* point: the maximal histories are the replay scenarios.                  *)
@@ -52,7 +56,6 @@ NoOrphanFuture ==
 \* without the check/marshal race no thread waits for a handle that will never run
 NoHungThread == ~ChkRace => \A i \in Thr : S.thr[i].pc # "hung"
 
-\* cancel() accepted while the call is parked really reaches the task (fails with ChkRace: C15-B)
 Final == [left |-> S.left, fut |-> [c \in 1..NC |-> S.fut[c]], loop |-> S.loop]
 EmitFinalAC == (qd' /\ ~qd) => PrintT(<<"@@F", ToJson([h |-> hist', fin |-> Final])>>)
 EmitAC == EmitFinalAC
